@@ -60,7 +60,7 @@ KINDS = ['assign', 'emit', 'val', 'str', 'for', 'def', 'call', 'if', 'raise', 'r
          'skip', 'ellipsis', 'nws', 'blank', 'dict', 'none', 'ied', 'try', 'pv', 'while', 'with', 'raise_builtin', 'strrepr',
          'float', 'tuple', 'printmulti', 'escstr', 'forval', 'ifval', 'onlyblank', 'ied_dot', 'print_then_raise', 'raise_noted', 'raise_syntax',
          'raise_group', 'raise_chained', 'raise_nomsg', 'blank_run', 'blank_edges', 'oneline_for', 'oneline_raise',
-         'oneline_ied', 'oneline_silent']
+         'oneline_ied', 'oneline_silent', 'two_options_ws', 'skip_two_options_ws']
 # compound statements written on one line: the interactive interpreter wants a bare '...' line behind them
 ONELINE = ('oneline_for', 'oneline_raise', 'oneline_ied', 'oneline_silent')
 
@@ -162,6 +162,11 @@ def gen_example(rng, i, defined):
     elif k == 'ied_dot':
         # the real message holds a period, the documented detail differs and has none
         src = ['boom(%d, "ratio must be below 1.5 (%d)")  # doctest: +IGNORE_EXCEPTION_DETAIL' % (i, i)]
+    elif k == 'two_options_ws':
+        # several options in one comment, separated by blanks only (accepted by the standard module)
+        src = ['print("abc%ddef   x", val(%d))  # doctest: +ELLIPSIS +NORMALIZE_WHITESPACE' % (i, i)]
+    elif k == 'skip_two_options_ws':
+        src = ['boom(%d)  # doctest: +SKIP +ELLIPSIS' % i]
     elif k == 'oneline_for':
         src = ['for k in range(2): emit(%d)' % i]
     elif k == 'oneline_raise':
@@ -234,13 +239,13 @@ def make(seed):
         want = []
         for src in chunks:
             term = rng.random() < 0.3 and len(src) > 1
-            if len(src) == 1 and k not in ('skip', 'comment_ex'):
+            if len(src) == 1 and k not in ('skip', 'comment_ex', 'skip_two_options_ws'):
                 # the bare '...' the interactive interpreter shows after a one-line compound statement (rarely pasted
                 # after a simple statement too); xdoctest reads it as the first line of the want
                 if rng.random() < (0.8 if k in ONELINE else 0.05):
                     term = True
                     feats.add('terminated-one-liner' + (':raises' if k in ('oneline_raise', 'oneline_ied') else ''))
-            if k in ('skip', 'comment_ex'):
+            if k in ('skip', 'comment_ex', 'skip_two_options_ws'):
                 out, before, value, exc = '', '', None, None
             else:
                 out, before, value, exc = repl_run(ns, src)
@@ -262,6 +267,8 @@ def make(seed):
                 want = []
                 if k == 'ellipsis':
                     out = out.replace('c%dd' % i, '...')
+                if k == 'two_options_ws':
+                    out = out.replace('c%dd' % i, '...').replace('def   x', 'def x')
                 if k == 'nws':
                     out = out.replace('a   b', 'a b')
                 for w in (out[:-1].split('\n') if out else []):
